@@ -49,3 +49,102 @@ def roundtrip(text: str) -> dict:
             raise
         r["fail2"] = _exc(e)
     return r
+
+
+# ---------------------------------------------------------------------------
+# edit histories on ONE in-memory document
+
+def snapshot(obj, _seen=None):
+    """Deep structural snapshot of a document object (dataclass slots, lists, sentinels by name)."""
+    import dataclasses
+    if _seen is None:
+        _seen = {}
+    if obj is None or isinstance(obj, (str, int, float, bool, bytes)):
+        return obj
+    oid = id(obj)
+    if oid in _seen:
+        return ("<cycle>", type(obj).__name__)
+    _seen[oid] = True
+    try:
+        if isinstance(obj, dict):
+            return ("dict", tuple((k, snapshot(v, _seen)) for k, v in obj.items()))
+        if isinstance(obj, (list, tuple)):
+            extra = ()
+            if type(obj).__name__ == "Scope":
+                extra = ("Scope",)
+            return ("list",) + extra + tuple(snapshot(x, _seen) for x in obj)
+        if dataclasses.is_dataclass(obj):
+            fields = []
+            for f in dataclasses.fields(obj):
+                fields.append((f.name, snapshot(getattr(obj, f.name, None), _seen)))
+            return (type(obj).__name__, tuple(fields))
+        name = type(obj).__name__
+        if name in ("EmptyLine", "Linebreak", "Comma"):
+            return name
+        if name == "NixSourceCode":
+            return (name, snapshot(obj.expressions, _seen), snapshot(obj.trailing, _seen), obj.contains_error)
+        if name == "Node" or name == "PosixPath":
+            return (name, str(obj) if name == "PosixPath" else None)
+        return (name, repr(obj)[:80])
+    finally:
+        del _seen[oid]
+
+
+def run_history(case: dict) -> dict:
+    """Apply a sequence of set/rm operations to one document object; observe after every call."""
+    from nix_manipulator.cli.manipulations import remove_value, set_value
+    from nix_manipulator.parser import parse
+    out: dict = {"steps": []}
+    try:
+        with time_limit(20):
+            src = parse(case["text"])
+            out["text0"] = src.rebuild()
+    except BaseException as e:  # noqa: BLE001
+        if isinstance(e, (KeyboardInterrupt, SystemExit)):
+            raise
+        out["fail"] = _exc(e)
+        return out
+    for op in case["ops"]:
+        st: dict = {}
+        try:
+            before = snapshot(src)
+        except BaseException as e:  # noqa: BLE001
+            before = ("snapshot-failed", repr(e))
+        try:
+            with time_limit(20):
+                if op["f"] == "set":
+                    ret = set_value(src, op["npath"], op["vtext"])
+                else:
+                    ret = remove_value(src, op["npath"])
+            st["res"] = "ok"
+            st["ret"] = ret
+        except BaseException as e:  # noqa: BLE001
+            if isinstance(e, (KeyboardInterrupt, SystemExit)):
+                raise
+            st["res"] = type(e).__name__
+            st["exc"] = _exc(e)
+            try:
+                st["same_snap"] = snapshot(src) == before
+            except BaseException as e2:  # noqa: BLE001
+                st["same_snap"] = False
+                st["snap_err"] = repr(e2)[:200]
+        try:
+            with time_limit(20):
+                st["cur"] = src.rebuild()
+                st["again"] = src.rebuild()
+        except BaseException as e:  # noqa: BLE001
+            if isinstance(e, (KeyboardInterrupt, SystemExit)):
+                raise
+            st["cur_fail"] = _exc(e)
+            out["steps"].append(st)
+            break
+        if st["res"] == "ok":
+            try:
+                with time_limit(20):
+                    st["reparsed"] = parse(st["ret"]).rebuild()
+            except BaseException as e:  # noqa: BLE001
+                if isinstance(e, (KeyboardInterrupt, SystemExit)):
+                    raise
+                st["reparse_fail"] = _exc(e)
+        out["steps"].append(st)
+    return out
